@@ -33,6 +33,12 @@ static long valueOf(const Elem &e) { return (long) e; }
 static long g_zeroes = 0;
 static Elem mk(long v) { return v == 0 ? ((++g_zeroes & 1) ? -0.0 : 0.0) : (double) v; }
 static double mkArg(long v) { return mk(v); }
+#elif defined(ELEM_TMOVE)
+// the tracked element type with a move constructor that is not noexcept
+using Elem = verif::TrackedM;
+static long valueOf(const Elem &e) { return e.value(); }
+static Elem mk(long v) { return verif::TrackedM(v); }
+static long mkArg(long v) { return v; }
 #else
 using Elem = verif::Tracked;
 static long valueOf(const Elem &e) { return e.value(); }
